@@ -10,6 +10,9 @@ import re
 from lib import rsx
 from lib.rsx import ExtractError
 from lib.verus_engine import Injector, Obligation
+from lib.weave import weave, split_headers, GMARK, LostAnchor
+import os
+HERE = os.path.dirname(os.path.abspath(__file__))
 
 SRC = 'fidget-core/src/types/interval.rs'
 PROPS = ['C03', 'C11']
@@ -206,6 +209,38 @@ PROOFS = [
 PROOFS += [('Interval::exp', '$START', 0, False, '        proof {\n            ax_ops(self.lower, self.upper); ax_ops(self.lower, 0.0f32); ax_ops(0.0f32, self.lower); ax_ops(self.upper, 0.0f32); ax_ops(0.0f32, self.upper);\n            ax_nan_prop(self.lower, self.upper);\n            ax_fun_nan(T_EXP(), self.lower); ax_fun_nan(T_EXP(), self.upper); ax_fun_mono(T_EXP(), self.lower, self.upper);\n            ax_total(0.0f32, self.lower); ax_total(self.lower, 0.0f32); ax_le_trans(0.0f32, self.lower, self.upper);\n            ax_lt_le_trans(0.0f32, self.lower, self.upper);\n        }'), ('Interval::exp', '$TAILPROOF', 0, False, '        proof {\n            assert forall|x: f32| mem(x, self) && !nan_iv(ret_) && !fnan(#[trigger] fun1(T_EXP(), x)) implies mem(fun1(T_EXP(), x), ret_) by {\n                ax_fun_mono(T_EXP(), self.lower, x); ax_fun_mono(T_EXP(), x, self.upper);\n                ax_fun_nan(T_EXP(), x);\n            }\n        }'), ('Interval::atan', '$START', 0, False, '        proof {\n            ax_ops(self.lower, self.upper); ax_ops(self.lower, 0.0f32); ax_ops(0.0f32, self.lower); ax_ops(self.upper, 0.0f32); ax_ops(0.0f32, self.upper);\n            ax_nan_prop(self.lower, self.upper);\n            ax_fun_nan(T_ATAN(), self.lower); ax_fun_nan(T_ATAN(), self.upper); ax_fun_mono(T_ATAN(), self.lower, self.upper);\n            ax_total(0.0f32, self.lower); ax_total(self.lower, 0.0f32); ax_le_trans(0.0f32, self.lower, self.upper);\n            ax_lt_le_trans(0.0f32, self.lower, self.upper);\n        }'), ('Interval::atan', '$TAILPROOF', 0, False, '        proof {\n            assert forall|x: f32| mem(x, self) && !nan_iv(ret_) && !fnan(#[trigger] fun1(T_ATAN(), x)) implies mem(fun1(T_ATAN(), x), ret_) by {\n                ax_fun_mono(T_ATAN(), self.lower, x); ax_fun_mono(T_ATAN(), x, self.upper);\n                ax_fun_nan(T_ATAN(), x);\n            }\n        }'), ('Interval::sqrt', '$START', 0, False, '        proof {\n            ax_ops(self.lower, self.upper); ax_ops(self.lower, 0.0f32); ax_ops(0.0f32, self.lower); ax_ops(self.upper, 0.0f32); ax_ops(0.0f32, self.upper);\n            ax_nan_prop(self.lower, self.upper);\n            ax_fun_nan(T_SQRT(), self.lower); ax_fun_nan(T_SQRT(), self.upper); ax_fun_mono(T_SQRT(), self.lower, self.upper);\n            ax_total(0.0f32, self.lower); ax_total(self.lower, 0.0f32); ax_le_trans(0.0f32, self.lower, self.upper);\n            ax_lt_le_trans(0.0f32, self.lower, self.upper);\n        }'), ('Interval::sqrt', '$TAILPROOF', 0, False, '        proof {\n            assert forall|x: f32| mem(x, self) && !nan_iv(ret_) && !fnan(#[trigger] fun1(T_SQRT(), x)) implies mem(fun1(T_SQRT(), x), ret_) by {\n                ax_fun_mono(T_SQRT(), self.lower, x); ax_fun_mono(T_SQRT(), x, self.upper);\n                ax_fun_nan(T_SQRT(), x);\n            }\n        }'), ('Interval::ln', '$START', 0, False, '        proof {\n            ax_ops(self.lower, self.upper); ax_ops(self.lower, 0.0f32); ax_ops(0.0f32, self.lower); ax_ops(self.upper, 0.0f32); ax_ops(0.0f32, self.upper);\n            ax_nan_prop(self.lower, self.upper);\n            ax_fun_nan(T_LN(), self.lower); ax_fun_nan(T_LN(), self.upper); ax_fun_mono(T_LN(), self.lower, self.upper);\n            ax_total(0.0f32, self.lower); ax_total(self.lower, 0.0f32); ax_le_trans(0.0f32, self.lower, self.upper);\n            ax_lt_le_trans(0.0f32, self.lower, self.upper);\n        }'), ('Interval::ln', '$TAILPROOF', 0, False, '        proof {\n            assert forall|x: f32| mem(x, self) && !nan_iv(ret_) && !fnan(#[trigger] fun1(T_LN(), x)) implies mem(fun1(T_LN(), x), ret_) by {\n                ax_fun_mono(T_LN(), self.lower, x); ax_fun_mono(T_LN(), x, self.upper);\n                ax_fun_nan(T_LN(), x);\n            }\n        }'), ('Interval::floor', '$START', 0, False, '        proof {\n            ax_ops(self.lower, self.upper); ax_ops(self.lower, 0.0f32); ax_ops(0.0f32, self.lower); ax_ops(self.upper, 0.0f32); ax_ops(0.0f32, self.upper);\n            ax_nan_prop(self.lower, self.upper);\n            ax_fun_nan(T_FLOOR(), self.lower); ax_fun_nan(T_FLOOR(), self.upper); ax_fun_mono(T_FLOOR(), self.lower, self.upper);\n            ax_total(0.0f32, self.lower); ax_total(self.lower, 0.0f32); ax_le_trans(0.0f32, self.lower, self.upper);\n            ax_lt_le_trans(0.0f32, self.lower, self.upper);\n        }'), ('Interval::floor', '$TAILPROOF', 0, False, '        proof {\n            assert forall|x: f32| mem(x, *self) && !nan_iv(ret_) && !fnan(#[trigger] fun1(T_FLOOR(), x)) implies mem(fun1(T_FLOOR(), x), ret_) by {\n                ax_fun_mono(T_FLOOR(), self.lower, x); ax_fun_mono(T_FLOOR(), x, self.upper);\n                ax_fun_nan(T_FLOOR(), x);\n            }\n        }'), ('Interval::ceil', '$START', 0, False, '        proof {\n            ax_ops(self.lower, self.upper); ax_ops(self.lower, 0.0f32); ax_ops(0.0f32, self.lower); ax_ops(self.upper, 0.0f32); ax_ops(0.0f32, self.upper);\n            ax_nan_prop(self.lower, self.upper);\n            ax_fun_nan(T_CEIL(), self.lower); ax_fun_nan(T_CEIL(), self.upper); ax_fun_mono(T_CEIL(), self.lower, self.upper);\n            ax_total(0.0f32, self.lower); ax_total(self.lower, 0.0f32); ax_le_trans(0.0f32, self.lower, self.upper);\n            ax_lt_le_trans(0.0f32, self.lower, self.upper);\n        }'), ('Interval::ceil', '$TAILPROOF', 0, False, '        proof {\n            assert forall|x: f32| mem(x, *self) && !nan_iv(ret_) && !fnan(#[trigger] fun1(T_CEIL(), x)) implies mem(fun1(T_CEIL(), x), ret_) by {\n                ax_fun_mono(T_CEIL(), self.lower, x); ax_fun_mono(T_CEIL(), x, self.upper);\n                ax_fun_nan(T_CEIL(), x);\n            }\n        }'), ('Interval::round', '$START', 0, False, '        proof {\n            ax_ops(self.lower, self.upper); ax_ops(self.lower, 0.0f32); ax_ops(0.0f32, self.lower); ax_ops(self.upper, 0.0f32); ax_ops(0.0f32, self.upper);\n            ax_nan_prop(self.lower, self.upper);\n            ax_fun_nan(T_ROUND(), self.lower); ax_fun_nan(T_ROUND(), self.upper); ax_fun_mono(T_ROUND(), self.lower, self.upper);\n            ax_total(0.0f32, self.lower); ax_total(self.lower, 0.0f32); ax_le_trans(0.0f32, self.lower, self.upper);\n            ax_lt_le_trans(0.0f32, self.lower, self.upper);\n        }'), ('Interval::round', '$TAILPROOF', 0, False, '        proof {\n            assert forall|x: f32| mem(x, *self) && !nan_iv(ret_) && !fnan(#[trigger] fun1(T_ROUND(), x)) implies mem(fun1(T_ROUND(), x), ret_) by {\n                ax_fun_mono(T_ROUND(), self.lower, x); ax_fun_mono(T_ROUND(), x, self.upper);\n                ax_fun_nan(T_ROUND(), x);\n            }\n        }'), ('Interval::recip', '$START', 0, False, '        proof {\n            ax_ops(self.lower, self.upper); ax_ops(self.lower, 0.0f32); ax_ops(0.0f32, self.lower); ax_ops(self.upper, 0.0f32); ax_ops(0.0f32, self.upper);\n            ax_nan_prop(self.lower, self.upper);\n            ax_recip(self.lower, self.upper);\n        }'), ('Interval::recip', '$TAILPROOF', 0, False, '        proof {\n            assert forall|x: f32| mem(x, self) && !nan_iv(ret_) implies mem(#[trigger] 1.0f32.div_spec(x), ret_) by {\n                ax_ops(x, 0.0f32); ax_ops(0.0f32, x);\n                ax_lt_le_trans(0.0f32, self.lower, x); ax_le_lt_trans(x, self.upper, 0.0f32);\n                ax_recip(self.lower, x); ax_recip(x, self.upper);\n            }\n        }')]
 
 
+
+def r_unroll(f, trace, what):
+    """R-unroll: a `for` loop over an array literal, or over the tail of a fixed-size local array, is written out element by element:
+    `for V in [E1, E2] { BODY }` -> `{ let V = E1; BODY } { let V = E2; BODY }`;  `for &V in &A[1..] { BODY }` with `let mut A = [c; N]`
+    -> `{ let V = A[1]; BODY } .. { let V = A[N-1]; BODY }`.  The element expressions are field reads or array reads (no side effects), so
+    evaluating them at the head of each copy instead of once when the array literal is built changes nothing."""
+    while True:
+        m = re.search(r'( *)for (&?)(\w+) in (\[[^\]\n]+\]|&\w+\[\d+\.\.\]) \{\n', f)
+        if not m:
+            return f
+        ob = m.end() - 2
+        cb = rsx.match_brace(f, ob)
+        body = f[m.end():cb]
+        ind, amp, var, it = m.group(1), m.group(2), m.group(3), m.group(4)
+        if it.startswith('['):
+            elems = [e.strip() for e in rsx.split_top(it[1:-1])]
+            if amp:
+                raise ExtractError('%s: R-unroll: reference pattern over an array literal' % what)
+        else:
+            m2 = re.match(r'&(\w+)\[(\d+)\.\.\]', it)
+            arr, lo = m2.group(1), int(m2.group(2))
+            m3 = re.search(r'let mut %s = \[[^;\]]+; (\d+)\];' % arr, f)
+            if not m3 or not amp:
+                raise ExtractError('%s: R-unroll: length of `%s` not found' % (what, arr))
+            elems = ['%s[%d]' % (arr, k) for k in range(lo, int(m3.group(1)))]
+        out = ''
+        for e in elems:
+            out += '%s{\n%s    let %s = %s;\n%s%s}\n' % (ind, ind, var, e, body, ind)
+        f = f[:m.start()] + out + f[cb + 1:].lstrip('\n')
+        trace.fire('R-unroll')
+
+
 def inherent_from_trait(src, header_re, fn_name, new_name, trace):
     """R-traitfn: `impl Trait<..> for Interval { type Output = Self; fn f(..) {..} }` -> the method as an inherent fn
     (operator syntax `a + b` is by definition the call `Add::add(a, b)`; trait impls cannot carry `requires`)."""
@@ -243,8 +278,27 @@ def build(repo, trace):
     for w in ('Add<Interval>::add', 'Sub<Interval>::sub', 'Mul<f32>::mul (as mul_f32)', 'Neg::neg'):
         trace.items.append((SRC, 'impl ' + w))
     trace.drop('all other Interval functions (abs, square, sin, cos, tan, asin, acos, min/max/and/or_choice, '
-               'rem_euclid, not, atan2, mix, rand, midpoint, split, lerp, width, Mul<Interval>, Div, From impls): '
+               'rem_euclid, not, atan2, mix, rand, midpoint, split, lerp, width, From impls): '
                'select ops are decided by Kani, the rest by the bounded contracts interp_interval / total')
+    # Mul<Interval>, Div<Interval>: unrolled (R-unroll) and woven with their proof templates; each degrades on its own
+    md_ok = []
+    for hdr, fname, tfile in ((r'^impl std::ops::Mul<Interval> for Interval', 'mul', 'interval_tmpl_mul.rs'), (r'^impl std::ops::Div<Interval> for Interval', 'div', 'interval_tmpl_div.rs')):
+        tm = open(os.path.join(HERE, tfile)).read()
+        try:
+            real = inherent_from_trait(src, hdr, fname, fname, trace)
+            real = real.replace('f32::NAN.into()', 'nan_interval()')
+            real = r_unroll(real, trace, 'Interval::' + fname)
+            real = real.replace(') -> Self {', ') -> (r: Self)\n    {', 1)
+            w, m_, n_ = weave(tm, real, 'Interval::' + fname)
+            if m_ != n_:
+                trace.fire('weave-unmatched-lines', n_ - m_)
+            fns.append(w)
+        except (ExtractError, LostAnchor) as e:
+            trace.lost = getattr(trace, 'lost', {})
+            trace.lost.setdefault('Interval::' + fname, []).append('not woven: %s' % e)
+            fns.append('\n'.join(l[len(GMARK):] if l.startswith(GMARK) else l for l in tm.split('\n')))
+        md_ok.append(fname)
+        trace.items.append((SRC, 'impl %s<Interval>::%s' % ('Mul' if fname == 'mul' else 'Div', fname)))
     body = 'impl Interval {\n' + '\n\n'.join(fns) + '\n}\n'
     # R-nanconst / R-neg
     n1 = body.count('f32::NAN.into()')
@@ -282,7 +336,11 @@ def build(repo, trace):
             inj.proof(qual, anchor, proof, occ=occ, before=before)
     for qual, (ret, stext) in SPECS.items():
         inj.spec(qual, ret, stext)
-    inj.append_items(AXIOMS)
+    inj.append_items(AXIOMS + open(os.path.join(HERE, 'interval_muldiv_axioms.rs')).read())
     fnames = ['new', 'new_or_nan', 'lower', 'upper', 'has_nan', 'add', 'sub', 'mul_f32', 'neg', 'exp', 'atan', 'sqrt', 'ln', 'recip', 'floor', 'ceil', 'round']
     obls = [Obligation('interval::Interval::' + f, 'interval', 'Interval::' + f, props=PROPS) for f in fnames]
-    return {'texts': {'base': inj.s}, 'obligations': obls, 'canary_fns': ['Interval::' + f for f in ('new', 'new_or_nan', 'add', 'sub', 'mul_f32', 'neg', 'exp', 'sqrt', 'ln', 'recip', 'floor')]}
+    for f in md_ok:
+        obls.append(Obligation('interval::Interval::' + f, 'interval', 'Interval::' + f, props=PROPS, rlimit=50, note='totality on all valid intervals; enclosure for finite bounds (an infinite bound meeting a zero gives a NaN corner that min/max drop: known finding K4)'))
+    for l in ('lemma_minmax_step', 'lemma_mul_corners', 'lemma_div_corners'):
+        obls.append(Obligation('interval::' + l, 'interval', l, props=PROPS, kind='lemma'))
+    return {'texts': {'base': inj.s}, 'obligations': obls, 'canary_fns': ['Interval::' + f for f in ('new', 'new_or_nan', 'add', 'sub', 'mul_f32', 'neg', 'exp', 'sqrt', 'ln', 'recip', 'floor', 'mul', 'div')]}
